@@ -246,7 +246,7 @@ class Func:
 
     def where(self, node: ast.AST | None = None) -> str:
         n = node if node is not None and hasattr(node, "lineno") else self.node
-        return f"{getattr(n, '_relpath', self.module.relpath)}:{n.lineno}"
+        return f"{getattr(n, '_relpath', self.module.relpath)}:{getattr(n, '_srcline', n.lineno)}"
 
     def params(self) -> list[str]:
         a = self.node.args
